@@ -276,11 +276,15 @@ func (idx *MemoryIndex) genOffsetHash() error {
 	var hash plumbing.Hash
 	hash.ResetBySize(idx.objectIDSize)
 
+	idSize := uint32(idx.idSize())
 	i := uint32(0)
 	for firstLevel, fanoutValue := range idx.Fanout {
 		mappedFirstLevel := idx.FanoutMapping[firstLevel]
 		for secondLevel := uint32(0); i < fanoutValue; i++ {
-			_, err = hash.Write(idx.Names[mappedFirstLevel][secondLevel*uint32(idx.idSize()):])
+			// Write exactly one name: ObjectID.Write copies up to 32 bytes,
+			// so the rest of the bucket would spill into the bytes behind a
+			// SHA-1 id and the result would not equal the id it prints as.
+			_, err = hash.Write(idx.Names[mappedFirstLevel][secondLevel*idSize : (secondLevel+1)*idSize])
 			if err != nil {
 				return fmt.Errorf("cannot write name to hash: %w", err)
 			}
@@ -428,7 +432,8 @@ func (i *idxfileEntryIter) Next() (*Entry, error) {
 		mappedFirstLevel := i.idx.FanoutMapping[i.firstLevel]
 		entry := new(Entry)
 		entry.Hash.ResetBySize(i.idx.idSize())
-		_, err := entry.Hash.Write(i.idx.Names[mappedFirstLevel][i.secondLevel*i.idx.idSize():])
+		idSize := i.idx.idSize()
+		_, err := entry.Hash.Write(i.idx.Names[mappedFirstLevel][i.secondLevel*idSize : (i.secondLevel+1)*idSize])
 		if err != nil {
 			return nil, fmt.Errorf("cannot write entry hash: %w", err)
 		}
